@@ -2,37 +2,80 @@
 session-wide lock for their lifetime; seeded UI histories racing with process start-up, output and exit; observations
 at quiescence (GET /, the commands' LOG, /proc, the captured preview window) and after the end of the session (/proc);
 projection of the pv.* hook trace onto the events of spec/Trace_Preview.tla.  Used by C20."""
-import glob, json, os, signal, time
+import glob, json, os, re, signal, time
 import tmuxdrv
 from vlib import Infra
 
 # field codes -> shell words (placeholders are substituted by fzf; {q} {} are quoted by fzf itself)
 WORDS = {"n": "{n}", "s": "{}", "q": "{q}", "pn": "\"$(echo {+n} | tr ' ' ,)\"", "pf": "\"$(tr '\\n' , < {+f})\"", "f": "\"$(cat {f})\""}
 TEMPLATES = {"PA": ["n", "s", "q", "pn", "pf", "f"], "PB": ["n", "s", "pn"], "PC": ["q", "n", "pf"], "PD": ["n", "f"]}
-ENDLESS = ("endless", "ticking", "incrlong")
-HUNG_AFTER = 30.0      # a SIGKILLed process group that has not been reaped after this long is not going to be
-MARKER = "change-prompt(> )"
+ENDLESS = ("endless", "ticking", "incrlong", "pipe", "execend")
+HUNG_AFTER = 15.0      # a SIGKILLed process group that has not been reaped after this long is not going to be
+MARKER = "change-prompt(%d> )"     # the number shows on the screen: what the terminal has consumed so far
+
+# what a command does after its first block of lines ($L = identity line, $i = number of the next line).  Everything
+# that takes time is a CHILD of the shell fzf started (command list / loop / pipeline), except `execend`.
+FRAG = {"instant": ":", "mute": ":", "late": ":", "slow": "sleep 0.3; :",
+        "endless": "sleep 1000; echo \"$L|end\"", "pipe": "sleep 1000 | cat", "execend": "exec sleep 1000",
+        "incr": "for j in 1 2 3; do sleep 0.12; echo \"$L|$i\"; i=$((i+1)); done",
+        "incrlong": "for j in 1 2; do sleep 0.15; echo \"$L|$i\"; i=$((i+1)); done; sleep 1000; :",
+        "ticking": "while :; do sleep 0.25; echo \"$L|$i\"; i=$((i+1)); done"}
+LATE = 0.9             # kind `late`: silent for longer than previewDelayed (500 ms: "Loading ..")
+
+# preview window layouts (pane 110 x 18); rows / columns of the window are measured on the real binary (calibrate)
+LAYOUTS = ["down,5,border-top", "right,44,border-left", "up,6,border-bottom", "left,40,border-right", "down,6,border-none",
+           "right,38,border-rounded", "up,4,border-sharp", "right,50,border-none"]
+PANE = (110, 18)
 
 
-FRAG = {"instant": ":", "mute": ":", "slow": "sleep 0.3", "endless": "sleep 1000",
-        "incr": "for i in 1 2 3; do sleep 0.12; echo L$i; done",
-        "incrlong": "for i in 1 2; do sleep 0.15; echo L$i; done; sleep 1000",
-        "ticking": "while :; do sleep 0.25; echo T; done"}
-
-
-def command(tag, kinds, lead=0):
+def command(tag, kinds, lead=0, talls=(1,)):
     """The preview command: takes the session lock for its lifetime, appends `start|pid|identity line` to the LOG, prints
-    the identity line (kind `mute`: prints NOTHING), then behaves by kind = kinds[item index mod len(kinds)].
-    lead: seconds the command stays silent before it logs and prints."""
+    M lines `identity line|i` at once (M = talls[item index mod len(talls)]; kind `mute`: prints NOTHING), then behaves
+    by kind = kinds[item index mod len(kinds)].  lead: seconds the command stays silent before it logs and prints."""
     codes = TEMPLATES[tag]
     fmt = tag + "".join("|%s" for _ in codes)
     args = " ".join(WORDS[c] for c in codes)
-    mute = "|".join(str(i) for i, k in enumerate(kinds) if k == "mute")
+    idx = lambda k: "|".join(str(i) for i, x in enumerate(kinds) if x == k)
     arms = " ".join("%d) %s;;" % (i, FRAG[k]) for i, k in enumerate(kinds))
-    return ("exec 9>>\"$VLOCK\"; flock -n 9 || echo \"overlap|$$\" >> \"$VLOG\"; %sN={n}; K=$(( ${N:-0} %% %d )); L=$(printf '%s' %s); "
-            "echo \"start|$$|$L\" >> \"$VLOG\"; %s case $K in %s esac" % (
-                "sleep %s; " % lead if lead else "", len(kinds), fmt, args,
-                ("case $K in %s) ;; *) echo \"$L\";; esac;" % mute) if mute else "echo \"$L\";", arms))
+    return ("exec 9>>\"$VLOCK\"; flock -n 9 || echo \"overlap|$$\" >> \"$VLOG\"; %sN={n}; N=${N:-0}; K=$(( N %% %d )); "
+            "set -- %s; shift $(( N %% %d )); M=$1; %s%sL=$(printf '%s' %s); echo \"start|$$|$L\" >> \"$VLOG\"; "
+            "i=1; while [ $i -le $M ]; do echo \"$L|$i\"; i=$((i+1)); done; case $K in %s esac" % (
+                "sleep %s; " % lead if lead else "", len(kinds), " ".join(str(x) for x in talls), len(talls),
+                ("case $K in %s) M=0;; esac; " % idx("mute")) if "mute" in kinds else "",
+                ("case $K in %s) sleep %s;; esac; " % (idx("late"), LATE)) if "late" in kinds else "",
+                fmt, args, arms))
+
+
+RULER = "i=0; while [ $i -lt 60 ]; do printf '%0300d\\n' 0 | tr 0 R; i=$((i+1)); done"
+
+
+def calibrate(ctx, fzf, layout):
+    """Where the preview window of a layout is on the screen: a preview of 60 lines of 300 R's fills it completely
+    (no wrap: every row is cut at the right edge).  Returns (x0, y0, W, H)."""
+    s = tmuxdrv.Session(ctx, fzf, ["--no-color", "--no-unicode", "--multi", "--no-sort", "--preview", RULER, "--preview-window", layout],
+                        input_data="ab0\nab1\n", width=PANE[0], height=PANE[1])
+    try:
+        s.wait_listening(timeout=120)
+        s.wait_for(lambda tr: any(e["ev"] == "pv.display" and e["nlines"] == 60 for e in tr), timeout=120, what="ruler displayed")
+        t0 = time.time()
+        while True:
+            lines = s.capture()
+            ys = [y for y, ln in enumerate(lines) if "RRRRRRRR" in ln]
+            if ys and ys == list(range(ys[0], ys[0] + len(ys))):
+                spans = [(lines[y].index("R"), lines[y].rindex("R")) for y in ys]
+                x0 = spans[0][0]
+                ws = {b - a + 1 for a, b in spans[1:]} if len(spans) > 1 else {spans[0][1] - spans[0][0] + 1}
+                if all(a == x0 for a, _ in spans) and len(ws) == 1 and len(ys) >= 2 and "1/60" in lines[ys[0]]:
+                    return (x0, ys[0], ws.pop(), len(ys))
+            if time.time() - t0 > 20:
+                raise Infra("cannot locate the preview window of layout %s on the screen:\n%s" % (layout, "\n".join(lines)))
+            time.sleep(0.05)
+    finally:
+        try:
+            s.post("abort", final=True, timeout=10)
+        except Exception:
+            pass
+        s.close()
 
 
 def kind_of(kinds, item):
@@ -183,12 +226,26 @@ class Index:
         self.wait(lambda: len(self.markers) >= n and self.last_flush > self.markers[n - 1], timeout, "marker %d" % n)
 
 
-def pane_of(s, rows=4):
-    lines = s.capture()
-    if len(lines) < rows:
-        return []
-    toks = lines[-rows].split()
-    return toks[0].split("|") if toks else []
+def rows_of(lines, geom):
+    """The rows of the preview window cut from a captured screen (trailing blanks dropped)."""
+    x0, y0, w, h = geom
+    out = []
+    for y in range(y0, y0 + h):
+        ln = lines[y] if y < len(lines) else ""
+        out.append(ln[x0:x0 + w].rstrip())
+    return out
+
+
+_PROMPT = re.compile(r"(?:^|[ |+])(\d+)>(?: |$)")      # (capture-pane drops trailing blanks)
+
+
+def prompt_no(lines):
+    """The number the prompt shows (set by the driver's marker action), -1 if none."""
+    for ln in lines:
+        m = _PROMPT.search(ln)
+        if m:
+            return int(m.group(1))
+    return -1
 
 
 def read_log(path):
@@ -221,9 +278,11 @@ class Plan:
          {"until": hook-event}               go on as soon as one more such hook event has been logged
          {"burst": body, "until": event}     keep POSTing body until one more such hook event has been logged
        observe: take the quiescence observation before leaving;  leave: abort | accept | sigterm | none(the steps end it)"""
-    def __init__(self, sid, tag, kinds, nitems, steps, observe=True, leave="abort", label="random", lead=0):
+    def __init__(self, sid, tag, kinds, nitems, steps, observe=True, leave="abort", label="random", lead=0, talls=(1,), layout=0, wrap=False, suffix=""):
         self.sid, self.tag, self.kinds, self.nitems, self.steps = sid, tag, kinds, nitems, steps
         self.observe, self.leave, self.label, self.lead = observe, leave, label, lead
+        self.talls, self.layout, self.wrap = list(talls), layout, wrap         # lines printed at once by item index; LAYOUTS index; wrap mode
+        self.suffix = suffix                                                    # appended to every item text (lines wider than the window)
 
     def to_json(self):
         return dict(self.__dict__)
@@ -233,14 +292,17 @@ def item_text(i):
     return "ab%d" % i
 
 
-def run_session(ctx, fzf, plan, record_unsettled=False):
+def run_session(ctx, fzf, plan, geoms, record_unsettled=False):
+    """geoms: LAYOUTS index -> (x0, y0, W, H) of the preview window on the screen (calibrate)."""
     sid = "c20x%dx%d" % (os.getpid(), plan.sid)
     kinds = plan.kinds
-    cmds = {tag: command(tag, kinds, plan.lead) for tag in TEMPLATES}
-    texts = [item_text(i) for i in range(plan.nitems)]
-    args = ["--no-color", "--no-unicode", "--multi", "--no-sort", "--preview", cmds[plan.tag], "--preview-window", "down,4,border-top"]
+    cmds = {tag: command(tag, kinds, plan.lead, plan.talls) for tag in TEMPLATES}
+    texts = [item_text(i) + plan.suffix for i in range(plan.nitems)]
+    geom = geoms[plan.layout]
+    args = ["--no-color", "--no-unicode", "--multi", "--no-sort", "--preview", cmds[plan.tag],
+            "--preview-window", LAYOUTS[plan.layout] + (",wrap" if plan.wrap else "")]
     # the preview commands run in the session directory (run.sh changes into it): LOG and LOCK are relative paths
-    s = tmuxdrv.Session(ctx, fzf, args, input_data="".join(t + "\n" for t in texts), width=110, height=18,
+    s = tmuxdrv.Session(ctx, fzf, args, input_data="".join(t + "\n" for t in texts), width=PANE[0], height=PANE[1],
                         env={"FZF_VERIF_SID": sid, "VLOG": "pvlog", "VLOCK": "pvlock"})
     log_path = os.path.join(s.dir, "pvlog")
     quiet = None
@@ -265,7 +327,7 @@ def run_session(ctx, fzf, plan, record_unsettled=False):
                     if body == "change-preview:" + c:
                         tag = t
             else:
-                visible ^= (body.count("toggle-preview") % 2 == 1)
+                visible ^= (len(re.findall(r"toggle-preview(?!-)", body)) % 2 == 1)
 
         for st in plan.steps:
             if gone:
@@ -294,7 +356,7 @@ def run_session(ctx, fzf, plan, record_unsettled=False):
             deadline = time.time() + (60 if record_unsettled else 120)
             while True:
                 markers += 1
-                post(MARKER)
+                post(MARKER % markers)
                 ix.wait_marker(markers)
                 state = analyse(ix.pv, kinds, time.time())
                 if state == "busy":
@@ -312,28 +374,43 @@ def run_session(ctx, fzf, plan, record_unsettled=False):
                     continue
                 # candidate quiescence: observe, then make sure nothing but repeated displays happened meanwhile
                 sig0 = [(e["ev"], e.get("version")) for e in ix.pv if e["ev"] != "pv.display"]
+                disp0 = [e for e in ix.pv if e["ev"] == "pv.display"]
                 get = s.get(timeout=60)
                 if get is None:
                     raise Infra("GET / failed at quiescence")
                 _, prev = scan(sid)
                 recs, overlaps = read_log(log_path)
-                disp = [e for e in ix.pv if e["ev"] == "pv.display"]
-                want = disp[-1]["lines"][0].rstrip("\n").split("|") if disp and disp[-1]["nlines"] > 0 else []
-                pane = pane_of(s)
+                # the screen: the prompt shows the number of the marker once the terminal emulator has consumed everything
+                # fzf wrote up to the flush that followed it; then two captures in a row must agree below the first row
+                # (a running command's spinner keeps changing the first one)
                 t1 = time.time()
-                while visible and pane != want and time.time() - t1 < 10:     # the terminal emulator lags behind fzf's writes
-                    time.sleep(0.02)
-                    pane = pane_of(s)
+                lines = s.capture()
+                while prompt_no(lines) != markers and time.time() - t1 < 20:
+                    time.sleep(0.01)
+                    lines = s.capture()
+                t_prompt = time.time() - t1
+                rows = rows_of(lines, geom) if visible else []
+                while time.time() - t1 < 25:
+                    time.sleep(0.015)
+                    again = rows_of(s.capture(), geom) if visible else []
+                    if again[1:] == rows[1:]:
+                        rows = again
+                        break
+                    rows = again
                 ix.update()
                 sig1 = [(e["ev"], e.get("version")) for e in ix.pv if e["ev"] != "pv.display"]
                 if state != "unsettled" and (sig1 != sig0 or analyse(ix.pv, kinds, time.time()) != state):
                     if time.time() > deadline + 60:
                         raise Infra("session %s keeps moving" % plan.label)
                     continue
+                disp1 = [e for e in ix.pv if e["ev"] == "pv.display"]
+                nlo = 0
+                if disp1:
+                    nlo = disp0[-1]["nlines"] if disp0 and disp0[-1]["version"] == disp1[-1]["version"] else disp1[-1]["nlines"]
                 cur = get["current"]["index"] if get.get("current") else -1
                 quiet = {"ev": "quiet", "cur": cur, "q": get["query"], "sel": [x["index"] for x in get["selected"]],
-                         "visible": visible, "tag": tag, "pane": pane, "procs": pgids(prev), "overlaps": overlaps, "log": recs,
-                         "state": state}
+                         "visible": visible, "tag": tag, "rows": rows, "nlo": nlo, "procs": pgids(prev), "overlaps": overlaps, "log": recs,
+                         "state": state, "waited": [round(t_prompt, 2), round(time.time() - t1, 2), markers]}
                 quiet_at = ix.n
                 break
         # ---- the end of the session
@@ -359,7 +436,7 @@ def run_session(ctx, fzf, plan, record_unsettled=False):
         exit_ev = {"ev": "exit", "how": plan.leave, "status": status, "survivors": pgids(prev), "overlaps": overlaps}
         kill_all(prev)
         tr = list(s.trace())
-        return project(plan, texts, cmds, tr, quiet, quiet_at, exit_ev)
+        return project(plan, texts, cmds, tr, quiet, quiet_at, exit_ev, geom)
     finally:
         try:
             s.close()
@@ -369,17 +446,30 @@ def run_session(ctx, fzf, plan, record_unsettled=False):
 
 
 # ------------------------------------------------------------------ projection onto Trace_Preview events
-def project(plan, texts, cmds, tr, quiet, quiet_at, exit_ev):
+SCROLLS = ("preview-up", "preview-down", "preview-page-up", "preview-page-down", "preview-half-page-up", "preview-half-page-down",
+           "preview-top", "preview-bottom")
+
+
+def project(plan, texts, cmds, tr, quiet, quiet_at, exit_ev, geom):
     tagof = {c: t for t, c in cmds.items()}
-    evs = [{"ev": "begin", "sid": plan.sid, "texts": texts, "tmpls": TEMPLATES, "kinds": plan.kinds, "tag": plan.tag, "label": plan.label}]
-    last_disp = None
+    evs = [{"ev": "begin", "sid": plan.sid, "texts": texts, "tmpls": TEMPLATES, "kinds": plan.kinds, "talls": plan.talls,
+            "H": geom[3], "W": geom[2], "wrap": plan.wrap, "layout": LAYOUTS[plan.layout], "tag": plan.tag, "label": plan.label}]
+    last_disp = None                             # (only an immediately repeated display is dropped)
     during = ""                                  # the action being executed (term.act ... term.loop happen under t.mutex)
     for i, e in enumerate(tr):
         if quiet is not None and i == quiet_at:
             evs.append(quiet)
+            last_disp = None
         k = e["ev"]
+        n0 = len(evs)
         if k == "term.act":
             during = e.get("act", "")
+            if during in SCROLLS:
+                evs.append({"ev": "scroll", "act": during, "seq": e["seq"]})
+            elif during == "toggle-preview":
+                evs.append({"ev": "tp", "seq": e["seq"]})
+            elif during == "toggle-preview-wrap":
+                evs.append({"ev": "tw", "seq": e["seq"]})
         elif k == "term.loop":
             during = ""
         elif k == "pv.enqueue":
@@ -402,7 +492,10 @@ def project(plan, texts, cmds, tr, quiet, quiet_at, exit_ev):
             d = (e["version"], e["nlines"], head)
             if d != last_disp:                      # the ticker repeats the same display every 100 ms (spinner)
                 evs.append({"ev": "disp", "version": e["version"], "nlines": e["nlines"], "head": head, "seq": e["seq"]})
-                last_disp = d
+            last_disp = d
+            continue
+        if len(evs) > n0:
+            last_disp = None
     if quiet is not None and quiet_at >= len(tr):
         evs.append(quiet)
     evs.append(exit_ev)
